@@ -169,9 +169,10 @@ def reference(case) -> dict:
         if a == "store_rq":
             handler_uids.append(step["uid"])
             continue
-        if a in ("silence", "close", "abort"):
+        if a in ("silence", "close", "abort", "relrq-silence"):
             exp.append(dict(empty))
-            end = {"silence": "timeout-aborted", "close": "peer-closed", "abort": "peer-aborted"}[a]
+            # (an A-RELEASE-RQ instead of the awaited response changes nothing: the DIMSE timeout expires and the association is aborted)
+            end = {"silence": "timeout-aborted", "relrq-silence": "timeout-aborted", "close": "peer-closed", "abort": "peer-aborted"}[a]
             stopped = True
             continue
         # a response message
@@ -444,6 +445,11 @@ def gen_cases(tier, seed):
                 for k in (0, rng.choice([1, 2, 3])):
                     cases.append(_case(op, {"silence": "silence", "close": "peer-close", "abort": "peer-abort"}[a],
                                        pendings(op, k, rng=rng) + [{"a": a}], rng))
+            # the peer asks for a release instead of sending the (final) response, then stays silent
+            for k in (0, rng.choice([1, 2])):
+                cases.append(_case(op, "release-rq-then-silence", pendings(op, k, rng=rng) + [{"a": "relrq-silence"}], rng))
+        for op in ("echo", "store", "n_get"):
+            cases.append(_case(op, "release-rq-then-silence", [{"a": "relrq-silence"}], rng))
         # ---------------- single response operations
         for op in STATUS_ONLY_OPS + PAIR_OPS:
             kind = RSP_KIND[op]
@@ -625,6 +631,9 @@ class Acceptor:
                 p.wait_eof(2.0)
                 return
             elif a == "silence":
+                break
+            elif a == "relrq-silence":
+                p.send_pdu({"type": "RELRQ"})
                 break
         self.script_done.set()
         if self.case["followup"] == "peer_release" and reference(self.case)["end"] == "established":
@@ -1010,7 +1019,7 @@ def _run_once(case):
     def C(name, n=1):
         counters[name] = counters.get(name, 0) + n
 
-    dimse_timeout = DIMSE_TIMEOUT if any(s_["a"] == "silence" for s_ in case["script"]) else DIMSE_TIMEOUT_NO_SILENCE
+    dimse_timeout = DIMSE_TIMEOUT if any(s_["a"] in ("silence", "relrq-silence") for s_ in case["script"]) else DIMSE_TIMEOUT_NO_SILENCE
     ae = harness.make_ae("VERIF-SCU", timeouts=(4.0, dimse_timeout, 8.0, 4.0),
                          requested=[(u, ImplicitVRLittleEndian) for u in ALL_ABSTRACT])
     acc = Acceptor(case)
@@ -1124,7 +1133,7 @@ def _run_once(case):
                 C("reactor_consumed_messages", len(stolen))
             if end == "timeout-aborted":
                 if not es.get("aborted_after_op"):
-                    V("%s|silence|not-aborted-after-dimse-timeout" % op, "is_aborted False after the DIMSE timeout; %r" % es)
+                    V("%s|%s|not-aborted-after-dimse-timeout" % (op, cat if cat == "release-rq-then-silence" else "silence"), "is_aborted False after the DIMSE timeout; %r" % es)
                 else:
                     C("silence_aborted")
                 harness.wait_for(lambda: acc.log["saw_abort"] or acc.log["saw_eof"], 2.0)
